@@ -281,24 +281,143 @@ structure Pattern (N : Type) where
   gainfile : Option String
 deriving Repr, DecidableEq, Inhabited
 
-/-- the commands after the antenna description: `C`, `N`, optional pattern block, `Q`
-(near-field blocks are only written through the Python API, not from the command line) -/
-def writeTail (pat : Option (Pattern N)) : List (Line N) :=
+/-- near-field request of the generated input (`near` given; only through the Python API): the three coordinate ranges
+`initial, increment, number` and an optional new power level; written twice, for the electric and the magnetic field -/
+structure NearReq (N : Type) where
+  x : N × N × Int
+  y : N × N × Int
+  z : N × N × Int
+  pwr : Option N
+deriving Repr, DecidableEq, Inhabited
+
+/-- what follows the antenna description -/
+structure Tail (N : Type) where
+  pat : Option (Pattern N)
+  near : Option (NearReq N)
+deriving Repr, DecidableEq, Inhabited
+
+def writePattern (p : Pattern N) : List (Line N) :=
+  [[.lit "P"], [.lit (if p.ffAbs then "V" else "D")]] ++
+  (if p.ffAbs then
+     (match p.pwr with
+      | some w => [[.lit "Y"], [.num w "%g"], [.lit "N"]]
+      | none => [[.lit "N"]]) ++ [[.num p.dist "%g"]]
+   else []) ++
+  [[.num p.zen.1 "%g", .num p.zen.2.1 "%g", .num p.zen.2.2 "%g"],
+   [.num p.azi.1 "%g", .num p.azi.2.1 "%g", .num p.azi.2.2 "%g"]] ++
+  (match p.gainfile with
+   | some g => [[.lit "Y"], [.lit g]]
+   | none => [[.lit "N"]])
+
+def rangeLine (r : N × N × Int) : Line N := [.num r.1 "%g", .num r.2.1 "%g", .int r.2.2]
+
+def writeNearBlock (ft : String) (q : NearReq N) : List (Line N) :=
+  [[.lit "N"], [.lit ft], rangeLine q.x, rangeLine q.y, rangeLine q.z] ++
+  (match q.pwr with
+   | some w => [[.lit "Y"], [.num w "%g"], [.lit "N"]]
+   | none => [[.lit "N"]]) ++
+  [[.lit "N"]]
+
+/-- the commands after the antenna description: `C`, `N` (currents, not saved), the optional pattern block, the optional
+near-field blocks (electric, then magnetic), `Q` -/
+def writeTail (t : Tail N) : List (Line N) :=
   [[.lit "C"], [.lit "N"]] ++
-  (match pat with
+  (match t.pat with
    | none => []
-   | some p =>
-     [[.lit "P"], [.lit (if p.ffAbs then "V" else "D")]] ++
-     (if p.ffAbs then
-        (match p.pwr with
-         | some w => [[.lit "Y"], [.num w "%g"], [.lit "N"]]
-         | none => [[.lit "N"]]) ++ [[.num p.dist "%g"]]
-      else []) ++
-     [[.num p.zen.1 "%g", .num p.zen.2.1 "%g", .num p.zen.2.2 "%g"],
-      [.num p.azi.1 "%g", .num p.azi.2.1 "%g", .num p.azi.2.2 "%g"]] ++
-     (match p.gainfile with
-      | some g => [[.lit "Y"], [.lit g]]
-      | none => [[.lit "N"]])) ++
+   | some p => writePattern p) ++
+  (match t.near with
+   | none => []
+   | some q => writeNearBlock "E" q ++ writeNearBlock "H" q) ++
   [[.lit "Q"]]
+
+/-! reader of the tail, following the prompts -/
+
+def readPower : List (Line N) → Option (Option N × List (Line N))
+  | [.lit "N"] :: r => some (none, r)
+  | [.lit "Y"] :: [.num w _] :: [.lit "N"] :: r => some (some w, r)
+  | _ => none
+
+def readTriple : List (Line N) → Option ((N × N × N) × List (Line N))
+  | [.num a _, .num b _, .num c _] :: r => some ((a, b, c), r)
+  | _ => none
+
+def readRange : List (Line N) → Option ((N × N × Int) × List (Line N))
+  | [.num a _, .num b _, .int c] :: r => some ((a, b, c), r)
+  | _ => none
+
+def readGainfile : List (Line N) → Option (Option String × List (Line N))
+  | [.lit "N"] :: r => some (none, r)
+  | [.lit "Y"] :: [.lit g] :: r => some (some g, r)
+  | _ => none
+
+/-- pattern block after the command `P`; `dflt` is the distance of a dBi request (not asked for) -/
+def readPattern (dflt : N) : List (Line N) → Option (Pattern N × List (Line N))
+  | [.lit "D"] :: r =>
+    match readTriple r with
+    | some (zen, r) =>
+      match readTriple r with
+      | some (azi, r) =>
+        match readGainfile r with
+        | some (g, r) => some (⟨false, none, dflt, zen, azi, g⟩, r)
+        | none => none
+      | none => none
+    | none => none
+  | [.lit "V"] :: r =>
+    match readPower r with
+    | some (pw, [.num d _] :: r) =>
+      match readTriple r with
+      | some (zen, r) =>
+        match readTriple r with
+        | some (azi, r) =>
+          match readGainfile r with
+          | some (g, r) => some (⟨true, pw, d, zen, azi, g⟩, r)
+          | none => none
+        | none => none
+      | none => none
+    | _ => none
+  | _ => none
+
+/-- one near-field block after the command `N`: field type, three ranges, power, `N` (not saved) -/
+def readNearBlock (ft : String) : List (Line N) → Option (NearReq N × List (Line N))
+  | [.lit f] :: r =>
+    if f = ft then
+      match readRange r with
+      | some (x, r) =>
+        match readRange r with
+        | some (y, r) =>
+          match readRange r with
+          | some (z, r) =>
+            match readPower r with
+            | some (pw, [.lit "N"] :: r) => some (⟨x, y, z, pw⟩, r)
+            | _ => none
+          | none => none
+        | none => none
+      | none => none
+    else none
+  | _ => none
+
+def readNear [DecidableEq N] : List (Line N) → Option (Option (NearReq N) × List (Line N))
+  | [.lit "N"] :: r =>
+    match readNearBlock "E" r with
+    | some (qe, [.lit "N"] :: r) =>
+      match readNearBlock "H" r with
+      | some (qh, r) => if qe = qh then some (some qe, r) else none
+      | none => none
+    | _ => none
+  | r => some (none, r)
+
+def readTail [DecidableEq N] (dflt : N) : List (Line N) → Option (Tail N)
+  | [.lit "C"] :: [.lit "N"] :: r =>
+    let pr : Option (Option (Pattern N) × List (Line N)) :=
+      match r with
+      | [.lit "P"] :: r' => (readPattern dflt r').map fun (p, r'') => (some p, r'')
+      | _ => some (none, r)
+    match pr with
+    | some (pat, r) =>
+      match readNear r with
+      | some (nr, [[.lit "Q"]]) => some ⟨pat, nr⟩
+      | _ => none
+    | none => none
+  | _ => none
 
 end Pmn.Basic
